@@ -19,6 +19,7 @@ func buildProperties() []Property {
 			Decides:    "agreement of the writer's and the reader's tables and exactness of the number paths: every escape the writer can emit is accepted by the lexer class, matched by the reader's pattern and mapped back to the same character; quote, backslash and control characters always trigger escaping; floats are written with the shortest round-tripping representation and read by one correctly rounding conversion; write_term/3 and read_term/3 use the VM's one operator table. The write options are extended copy-on-write: a map reached through an options struct received by value is never updated in place.",
 			NotDecided: "bracketing/spacing correctness for operator contexts - the heart of the round trip - which depends on pairs (context operator, operand) over all tables.",
 			Rules: []RuleDef{
+				{"R-FLOAT-FINITE", 1, ruleFloatFinite},
 				{"R-ANON-VAR", 2, ruleAnonVar},
 				{"R-MAP-COW", 4, ruleMapCOW},
 				{"R-ESCAPE-TABLES", 12, ruleEscapeTables},
@@ -61,6 +62,7 @@ func buildProperties() []Property {
 			Decides:    "for every ordered pair of concrete term representations the Compare method, partially evaluated under 'the resolved argument has that dynamic type', returns exactly the constant the documented class order dictates, antisymmetrically (cross-class totality and antisymmetry; transitivity follows from a consistent rank); same-class pairs reach a value comparison; keysort/2 uses a stable sort; sort/2 and setof/3 share one set constructor that orders and deduplicates with Term.Compare. While a consumer tests a Compare result against -1 or 1, every member of the Compare family returns only -1, 0, 1 or another member's result; comparison inspects terms only after resolution.",
 			NotDecided: "ordering within a class (atoms by text, compounds by arity/name/args, numeric values), and that different encodings of the same list compare equal.",
 			Rules: []RuleDef{
+				{"R-FLOAT-FINITE", 1, ruleFloatFinite},
 				{"R-RESOLVE-ALL", 9, ruleResolveAll("C08")},
 				{"R-COMPARE-MATRIX", 100, ruleCompareMatrix},
 				{"R-STABLE-KEYSORT", 1, ruleStableKeysort},
@@ -258,6 +260,7 @@ func buildProperties() []Property {
 			Decides:    "integer evaluables never route through float64; full-range + - * neg are paired with an int_overflow branch; / % divisors and shift counts are guarded; float->integer conversions are range-guarded with the actual constants; the 2x2 type dispatch of the six comparison predicates and of the mixed-mode arithmetic computes the operator the ISO name prescribes. Arithmetic inspects operand types only after resolution. float_overflow is raised only under a test of the computed result for infinity or under a pre-check that knows the sign of every operand it multiplies or divides the bound by.",
 			NotDecided: "value correctness of guards that are present but wrong (the sign error in mulF/divF, O2), IEEE results of the float functions, deeper expression trees.",
 			Rules: []RuleDef{
+				{"R-FLOAT-FINITE", 1, ruleFloatFinite},
 				{"R-RESOLVE-ALL", 6, ruleResolveAll("C07")},
 				{"R-INT-EXACT", 10, ruleIntExact},
 				{"R-OVERFLOW-GUARD", 5, ruleOverflowGuard},
